@@ -20,12 +20,24 @@
 (* what a backend is known to do instead of the reference (DESIGN.md 6).    *)
 (***************************************************************************)
 EXTENDS Integers, Sequences, FiniteSets, TLC
-CONSTANT NULL
+CONSTANTS NULL,
+          PINF, NINF      \* model values for +infinity / -infinity (only is_null, is_bad, coalesce, negation, abs, sign see them)
 
 IsNull(v) == v = NULL
+IsInf(v) == v = PINF \/ v = NINF
 B(b) == IF b THEN 1 ELSE 0
 
-ArithOps == {"+", "-", "*"}
+ArithOps == {"+", "-", "*", "/", "//", "%", "**", "mod", "remainder"}
+\* transcendental methods are UNINTERPRETED: the spec fixes null propagation and the domain, the value is
+\* <<"uf", name, x>> and is realised by the harness with Python's math module (C05)
+UFNames == {"exp", "log", "log10", "sqrt", "sin", "cos", "sinh", "cosh", "tanh", "arctan", "expm1", "log1p"}
+UFDom(op, x) == CASE op \in {"log", "log10"} -> x > 0 [] op = "sqrt" -> x >= 0 [] op = "log1p" -> x > 0 - 1 [] OTHER -> TRUE
+RECURSIVE IPowV(_, _)
+IPowV(a, n) == IF n = 0 THEN 1 ELSE a * IPowV(a, n - 1)
+Gcd(a, b) == LET RECURSIVE G(_, _) G(p, q) == IF q = 0 THEN p ELSE G(q, p % q) IN G(IF a < 0 THEN 0 - a ELSE a, IF b < 0 THEN 0 - b ELSE b)
+\* exact quotient: an integer when it divides, else the normalised fraction <<"q", num, den>> with den > 0
+Quot(x, y) == LET s == IF y < 0 THEN 0 - 1 ELSE 1  n == s * x  d == s * y  g == Gcd(n, d)
+              IN IF (n % d) = 0 THEN n \div d ELSE <<"q", n \div g, d \div g>>
 CmpOps   == {"==", "!=", "<", "<=", ">", ">="}
 LogicOps == {"and", "or"}
 PickOps  == {"maximum", "minimum", "fmax", "fmin", "coalesce"}
@@ -35,6 +47,10 @@ Arith(op, x, y) ==
   ELSE CASE op = "+" -> x + y
          [] op = "-" -> x - y
          [] op = "*" -> x * y
+         [] op = "/" -> Quot(x, y)
+         [] op = "//" -> x \div y
+         [] op \in {"%", "mod", "remainder"} -> x % y
+         [] op = "**" -> IPowV(x, y)
 
 \* D14 (null_cmp_false): Pandas/Polars comparisons with a missing operand are False (True for !=)
 Cmp(op, x, y, dev) ==
@@ -69,12 +85,18 @@ Pick(op, x, y, dev) ==
             ELSE IF isMax THEN Max2(x, y) ELSE Min2(x, y)
 
 Unary(op, x) ==
+  IF IsInf(x) THEN (CASE op = "is_null" -> 0 [] op = "is_bad" -> 1 [] op = "coalesce_0" -> x
+                      [] op = "neg" -> (IF x = PINF THEN NINF ELSE PINF) [] op = "abs" -> PINF
+                      [] op = "sign" -> (IF x = PINF THEN 1 ELSE 0 - 1)) ELSE
   CASE op = "is_null" -> B(IsNull(x))
     [] op = "is_bad"  -> B(IsNull(x))
     [] op = "not"     -> Not3(x)
     [] op = "neg"     -> IF IsNull(x) THEN NULL ELSE 0 - x
     [] op = "abs"     -> IF IsNull(x) THEN NULL ELSE (IF x < 0 THEN 0 - x ELSE x)
     [] op = "sign"    -> IF IsNull(x) THEN NULL ELSE (IF x < 0 THEN 0 - 1 ELSE IF x > 0 THEN 1 ELSE 0)
+    [] op \in {"floor", "ceil", "round"} -> x            \* on whole numbers (the fractional cases are C05's float columns)
+    [] op = "coalesce_0" -> IF IsNull(x) THEN 0 ELSE x
+    [] op \in UFNames -> IF IsNull(x) THEN NULL ELSE <<"uf", op, x>>
 
 IfElse(c, a, b) == IF IsNull(c) THEN NULL ELSE IF c = 1 THEN a ELSE b
 Where(c, a, b)  == IF c = 1 THEN a ELSE b          \* where(NULL, a, b) = b
@@ -107,6 +129,24 @@ EvalE(e, row, dev) ==
     [] e[1] = "in" -> LET x == EvalE(e[2], row, dev)
                       IN IF IsNull(x) THEN (IF "null_cmp_false" \in dev THEN 0 ELSE NULL)
                          ELSE B(\E i \in 1..Len(e[3]) : e[3][i] = x)
+
+RECURSIVE DefinedE(_, _)
+DefinedE(e, row) ==
+  CASE e[1] \in {"c", "k", "ks"} -> TRUE
+    [] e[1] = "u" -> /\ DefinedE(e[3], row)
+                     /\ (IsInf(EvalE(e[3], row, {})) => e[2] \in {"is_null", "is_bad", "coalesce_0", "neg"})
+                     /\ (e[2] \in UFNames => LET x == EvalE(e[3], row, {}) IN IsNull(x) \/ UFDom(e[2], x))
+    [] e[1] = "b" -> /\ DefinedE(e[3], row) /\ DefinedE(e[4], row)
+                     /\ LET x == EvalE(e[3], row, {}) y == EvalE(e[4], row, {}) IN
+                        IF IsInf(x) \/ IsInf(y) THEN e[2] = "coalesce"
+                        ELSE IF IsNull(x) \/ IsNull(y) THEN TRUE
+                        ELSE CASE e[2] = "/" -> y # 0
+                               [] e[2] \in {"//", "%", "mod", "remainder"} -> x >= 0 /\ y > 0
+                               [] e[2] = "**" -> y >= 0 /\ y <= 3 /\ x >= 0 - 3 /\ x <= 3
+                               [] OTHER -> TRUE
+    [] e[1] = "t" -> /\ DefinedE(e[3], row) /\ DefinedE(e[4], row) /\ DefinedE(e[5], row)
+                     /\ ~IsInf(EvalE(e[4], row, {})) /\ ~IsInf(EvalE(e[5], row, {}))
+    [] e[1] = "in" -> DefinedE(e[2], row) /\ ~IsInf(EvalE(e[2], row, {}))
 
 RECURSIVE ColsOfE(_)
 ColsOfE(e) ==
